@@ -17,5 +17,13 @@ AQ2 == {Plus(NCls({sa}),TRUE), NCls({sa}), Plus(NCls({sa,sb}),TRUE), Plus(Cls({s
 AT2 == {Emp, Lit(sb), Lit(sx), Cat(Lit(sb), Star(Dot,TRUE)), Cap(Lit(sb))}
 ANC2(z) == {Cat(Look("bot"), Cat(q, t)) : q \in AQ2, t \in AT2}
 
-FamilySetX(f) == IF f = "ANC2" THEN ANC2(0) ELSE FamilySet(f)
+(* ---- ANC3: the shape of the anchored-literal matcher (meta/anchored_literal.go): ^ literal, a dot wildcard, a class BRIDGE, a
+        literal, $.  The bridge classes contain "\n" and a space: the wildcard must not cross a newline while the bridge may, and a
+        seeded change that shortened the backward scan over the bridge went unnoticed because ANC has no bridge at all.  Used by
+        C19 only (its exhaustive length-5/6 sweep over the pattern's own bytes reaches the inputs that matter). ---- *)
+ANC3(z) == {Cat(Look("bot"), Cat(LitStr(p), Cat(w, Cat(Plus(c,TRUE), Cat(LitStr(s), Look("eot")))))) :
+               p \in {<<sa>>, <<sa,sb>>}, w \in {Star(Dot,TRUE), Plus(Dot,TRUE)},
+               c \in {Cls({ssp,snl}), Cls({sa,snl,ssp}), Cls({sb,s0})}, s \in {<<sb>>, <<sb,sa>>}}
+
+FamilySetX(f) == IF f = "ANC2" THEN ANC2(0) ELSE IF f = "ANC3" THEN ANC3(0) ELSE FamilySet(f)
 =============================================================================
